@@ -106,7 +106,9 @@ ErrnoOk(s, P, e) == IF s.gave > 0 /\ s.lastGive = "mac" THEN TRUE             \*
 RetAllowed(s, P, r) ==
     IF s.amb THEN r.kind \in {"ok", "tagerr"}                                 \* lost SECTOR SELECT packet 2: outcome not judged
     ELSE IF ~GaveUp(s, P) THEN r = P.cleanRet                                 \* transient errors are survived
-    ELSE \/ r.kind = "tagerr" /\ ErrnoOk(s, P, r.errno)                       \* TagCommandError with the matching code
+    \* P.noraise: attribute access (tag.ndef, ndef.has_changed, tag.is_present) and the operations documented to report
+    \* failure by value (Type 4 dump / format) never raise: a persistent failure is the documented None / False
+    ELSE \/ r.kind = "tagerr" /\ ErrnoOk(s, P, r.errno) /\ ~P.noraise         \* TagCommandError with the matching code
          \/ r.kind = "ok" /\ (r.val \in P.doc \/ "any" \in P.doc)             \* the documented None / False
 DoRet(s0, P, r, tp) ==
     LET s == VIf(s0, tp # s0.tgt, "stale-target")
